@@ -65,6 +65,10 @@ def _array_view(m, s, n):
     node = m._load(s.obj.tree, s.path, 0)
     if off == 0 and len(node) == n:
         return X.Ptr(s.obj, s.path)
+    if s.path and isinstance(s.path[-1], tuple):
+        # a view of (a slice of) a view: windows compose
+        _, off0, _n0 = s.path[-1]
+        return X.Ptr(s.obj, s.path[:-1] + (('win', off0 + off, n),))
     return X.Ptr(s.obj, s.path + (('win', off, n),))
 
 
